@@ -505,6 +505,18 @@ class PyFatFS(FS):
 
         return factory(self, path)
 
+    def __to_dos_datetime(self, timestamp) -> DosDateTime:
+        """Convert a timestamp, reject what FAT cannot represent."""
+        try:
+            dt = DosDateTime.fromtimestamp(timestamp, tz=self.tz)
+        except (OverflowError, OSError, ValueError):
+            dt = None
+        if dt is None or not 1980 <= dt.year <= 2107:
+            raise PyFATException(f"Timestamp {timestamp} cannot be "
+                                 f"represented on FAT (1980-2107).",
+                                 errno=errno.EINVAL)
+        return dt
+
     def setinfo(self, path: str, info):
         """Set file meta information such as timestamps."""
         details = info.get('details', {})
@@ -516,15 +528,18 @@ class PyFatFS(FS):
         old_fields = (dentry.crttime, dentry.crtdate, dentry.wrttime,
                       dentry.wrtdate, dentry.lstaccessdate)
         if ctime:
-            ctime = DosDateTime.fromtimestamp(ctime, tz=self.tz)
+            ctime = self.__to_dos_datetime(ctime)
+        if mtime:
+            mtime = self.__to_dos_datetime(mtime)
+        if atime:
+            atime = self.__to_dos_datetime(atime)
+        if ctime:
             dentry.crttime = ctime.serialize_time()
             dentry.crtdate = ctime.serialize_date()
         if mtime:
-            mtime = DosDateTime.fromtimestamp(mtime, tz=self.tz)
             dentry.wrttime = mtime.serialize_time()
             dentry.wrtdate = mtime.serialize_date()
         if atime:
-            atime = DosDateTime.fromtimestamp(atime, tz=self.tz)
             dentry.lstaccessdate = atime.serialize_date()
 
         try:
